@@ -139,7 +139,12 @@ func (m *Model) PullChildren(ctx context.Context, opts ...resource.ReadOption) <
 	go func() {
 		defer close(out)
 		for change := range changes {
-			out <- childrenChangeToProto(change)
+			select {
+			case <-ctx.Done():
+				// the subscriber may have stopped receiving: do not wait for it once it has cancelled
+				return
+			case out <- childrenChangeToProto(change):
+			}
 		}
 	}()
 
